@@ -33,6 +33,8 @@ type TNode struct {
 	VPol     int        `json:"vpol,omitempty"`         // validity policy: 1 pure accepting closure, 2 pure rejecting closure
 	NoNest   bool       `json:"nonest_after,omitempty"` // no-nesting switched on AFTER the elements were pushed
 	PPol     bool       `json:"ppol,omitempty"`         // pure presentation policy (constant text)
+	UPol     bool       `json:"upol,omitempty"`         // pure user Unmarshaler (constant output)
+	EPol     int        `json:"epol,omitempty"`         // equality policy: 1 always equal, 2 never equal
 	ReadOnly bool       `json:"ro,omitempty"`
 	Alias    int        `json:"alias,omitempty"` // 0 native, 1 AStack, 2 *AStack, 3 SStack, 4 *SStack / same for conditions
 	Kids     []*TNode   `json:"kids,omitempty"`
@@ -234,6 +236,15 @@ func (n *TNode) BuildStack() stackage.Stack {
 	case 2:
 		s.SetValidityPolicy(func(...any) error { return errPolicyRejects })
 	}
+	if n.UPol {
+		s.SetUnmarshaler(func(...any) ([]any, error) { return []any{"<unmarshaled by the user's closure>"}, nil })
+	}
+	switch n.EPol {
+	case 1:
+		s.SetEqualityPolicy(func(any, any) error { return nil })
+	case 2:
+		s.SetEqualityPolicy(func(any, any) error { return errPolicyRejects })
+	}
 	if n.ReadOnly {
 		s.SetReadOnly(true)
 	}
@@ -261,6 +272,24 @@ func (n *TNode) BuildCond() stackage.Condition {
 	}
 	for _, e := range n.Enc {
 		c.SetEncap(append([]string{}, e...))
+	}
+	if n.PPol {
+		c.SetPresentationPolicy(func(...any) string { return "<presented condition>" })
+	}
+	switch n.VPol {
+	case 1:
+		c.SetValidityPolicy(func(...any) error { return nil })
+	case 2:
+		c.SetValidityPolicy(func(...any) error { return errPolicyRejects })
+	}
+	if n.UPol {
+		c.SetUnmarshaler(func(...any) ([]any, error) { return []any{"<condition unmarshaled by the user's closure>"}, nil })
+	}
+	switch n.EPol {
+	case 1:
+		c.SetEqualityPolicy(func(any, any) error { return nil })
+	case 2:
+		c.SetEqualityPolicy(func(any, any) error { return errPolicyRejects })
 	}
 	if n.ReadOnly {
 		c.SetReadOnly(true)
